@@ -245,9 +245,24 @@ def oracle_reactor(ctx, rng, n_cases, max_steps=400):
             case['core']['coolant_material'] = rng.choice(['sodium', 'sodium', 'nak'])
             case['core']['coolant_inlet_temp'] = round(rng.uniform(600, 700), 2)
         case['core']['bypass_fraction'] = round(10 ** rng.uniform(-2.5, -1), 5)
+        forced_six = ci % 5 == 3
+        if forced_six:
+            # every fifth reactor: a gap-coupled core of several assemblies whose types have a SIX-NODE region below (and above)
+            # the bundle - its six nodes see different gap temperatures, so the hand-over to the next region must mix them
+            pos = gi.core_positions(2)
+            pos = [pos[0]] + [p for p in pos[1:] if rng.random() < 0.6][:4] or pos[:3]
+            case = gi.random_case(rng, positions=pos, n_types=2, gap_model='flow', length=rng.uniform(0.1, 0.3),
+                                  const_props=const_props, flow_range=(0.3, 6.0))
+            case['core']['bypass_fraction'] = round(10 ** rng.uniform(-1.7, -1), 5)
+            if not const_props:
+                case['core']['coolant_material'] = 'sodium'
+                case['core']['coolant_inlet_temp'] = round(rng.uniform(600, 700), 2)
+            gm = 'flow'
         for tn in list(case['types']):
             u = rng.random()
-            if u < 0.25:
+            if forced_six:
+                gi.add_axial_regions(rng, case, tn, lower=True, upper=rng.random() < 0.5, models=('6node',))
+            elif u < 0.25:
                 gi.add_axial_regions(rng, case, tn, lower=rng.random() < 0.7, upper=rng.random() < 0.7)
             elif u < 0.4:
                 gi.make_low_fidelity(rng, case, tn)
